@@ -35,10 +35,12 @@ structure CApp where
   pending : Res
   allocated : Res
   allocatedPh : Res
+  phAsk : Res            -- the placeholder total the application asked for at submission
   items : List CItem
   reservations : List (String × String)      -- ask key ↦ node
   phData : List (String × Nat × Nat × Nat)   -- task group, count, replaced, timed out
   log : List String
+  stateTimer : Bool := false
   deriving Repr, DecidableEq
 
 structure CQueue where
@@ -156,19 +158,24 @@ def I5 (s : Core) : Option String :=
     else if !sparseEq q.pending (sumRes (cs.map (·.pending))) then some s!"I5 parent.pending≠Σchildren {q.path}"
     else none)
 
-/-- in-flight real halves that sit on a node other than their placeholder's -/
-def inflightCross (s : Core) : List CItem :=
-  (s.liveApps.map (fun a => a.items.filter (fun i => i.inflightReal &&
-      (match i.release with
-       | some pk => (a.items.find? (·.key == pk)).map (·.node) != some i.node
-       | none => false)))).flatten
+/-- the real halves of in-flight cross-node placeholder replacements: allocations already placed on a node which
+    their application does not list as bound yet (it lists them as the in-flight replacement of a placeholder) -/
+def inflightCross (s : Core) : List Res :=
+  (s.nodes.map (fun n => (n.allocs.filter (!·.foreign)).filterMap (fun na =>
+    match s.findApp na.app with
+    | none => none
+    | some a => match a.items.find? (·.key == na.key) with
+      | some i => if i.inflightReal && i.node == n.id then some na.res else none
+      | none => none))).flatten
 
 def I6 (s : Core) : Option String :=
   match s.queues.find? (·.parent.isNone) with
   | none => none
   | some root =>
     let nodeSum := sumRes (s.nodes.map (·.allocated))
-    let infl := sumRes ((inflightCross s).map (·.res))
+    -- allocations of applications that are no longer live are reported by I7; do not report them twice
+    let orphan := sumRes ((s.nodes.map (fun n => (n.allocs.filter (fun na => !na.foreign && (s.findApp na.app).isNone)).map (·.res))).flatten)
+    let infl := addX (sumRes (inflightCross s)) orphan
     if sparseEq (addX root.allocated infl) nodeSum then none else some "I6 root.allocated≠Σnode.allocated−inflight"
 
 /-- every non-foreign allocation on a node belongs to a live application that lists it on this node
@@ -176,7 +183,12 @@ def I6 (s : Core) : Option String :=
 def I7 (s : Core) : Option String :=
   s.nodes.findSome? (fun n => (n.allocs.filter (!·.foreign)).findSome? (fun na =>
     match s.findApp na.app with
-    | none => some s!"I7 allocation of unknown application {na.key}@{n.id}"
+    | none =>
+      -- known class: the application terminated (Failed / Completed) and left the partition while this allocation was
+      -- still waiting for the shim's release confirmation
+      if s.apps.any (fun a => !a.live && a.id == na.app && a.items.any (fun i => i.key == na.key && i.bound)) then
+        some s!"I7t allocation of a terminated application still on its node {na.key}@{n.id}"
+      else some s!"I7 allocation of unknown application {na.key}@{n.id}"
     | some a => match a.items.find? (·.key == na.key) with
       | none => some s!"I7 allocation not listed by its application {na.key}@{n.id}"
       | some i =>
@@ -202,12 +214,9 @@ def I9 (s : Core) : Option String :=
 
 def I10 (s : Core) : Option String :=
   let bound := (s.liveApps.map (fun a => a.items.filter (·.bound))).flatten
-  -- the real half of an in-flight cross-node replacement is already counted
-  let n := bound.length
-  let ph := (bound.filter (·.ph)).length
-  if s.allocations != n then some s!"I10 allocation counter {s.allocations} ≠ {n}"
-  else if s.phAllocations != ph then some s!"I10 placeholder counter {s.phAllocations} ≠ {ph}"
-  else none
+  -- the partition's allocation count (REST: totalContainers). The placeholder counter is internal (a scheduling
+  -- short-cut), the property does not speak about it: it is not checked.
+  if s.allocations != bound.length then some s!"I10 allocation counter {s.allocations} ≠ {bound.length}" else none
 
 def I11 (s : Core) : Option String :=
   s.queues.findSome? (fun q =>
@@ -219,12 +228,15 @@ def conservedClauses : List (Core → Option String) := [I1, I2, I3, I4, I5, I6,
 
 def conserved (s : Core) : Option String := conservedClauses.findSome? (fun c => c s)
 
+/-- all failing clauses -/
+def conservedAll (s : Core) : List String := conservedClauses.filterMap (fun c => c s)
+
 /-- node ledger (C01) on every node of the partition -/
 def nodeLedger (s : Core) : Option String :=
   s.nodes.findSome? (fun n =>
     let sum := sumRes ((n.allocs.filter (!·.foreign)).map (·.res))
-    if !sparseEq n.allocated sum then some s!"node.allocated≠Σallocations {n.id}"
-    else if !sparseEq n.available (subX (subX n.total n.allocated) n.occupied) then some s!"node.available≠total−allocated−occupied {n.id}"
+    if !sparseEq n.allocated sum then some s!"ledger-allocated {n.id}"
+    else if !sparseEq n.available (subX (subX n.total n.allocated) n.occupied) then some s!"ledger-available {n.id}"
     else none)
 
 /-! ### C09 reservations -/
@@ -265,34 +277,34 @@ def resOK (s : Core) : Option String :=
 
 def gangOK (s : Core) : Option String :=
   s.liveApps.findSome? (fun a =>
-    (a.phData.findSome? (fun d => if d.2.2.1 ≤ d.2.1 then none else some s!"replaced>count {a.id}/{d.1}")).orElse fun _ =>
+    (a.phData.findSome? (fun d => if d.2.2.1 ≤ d.2.1 then none else some s!"replaced-gt-count {a.id}/{d.1}")).orElse fun _ =>
     a.items.findSome? (fun i =>
       if i.ph then
         match i.release with
         | none => none
         | some rk => match a.items.find? (·.key == rk) with
-          | none => some s!"placeholder linked to an unknown allocation {i.key}"
+          | none => some s!"ph-link-unknown {i.key}"
           | some r =>
-            if r.ph then some s!"placeholder replaced by a placeholder {i.key}"
-            else if r.tg != i.tg then some s!"replacement from another task group {i.key}"
-            else if !(fitInStd (some i.res) (some r.res)) then some s!"replacement larger than placeholder {i.key}"
+            if r.ph then some s!"ph-replaced-by-ph {i.key}"
+            else if r.tg != i.tg then some s!"replacement-other-taskgroup {i.key}"
+            else if !(fitInStd (some i.res) (some r.res)) then some s!"replacement-larger-than-placeholder {i.key}"
             else none
       else none))
 
 def lifecycleOK (s : Core) : Option String :=
   s.apps.findSome? (fun a =>
     if a.state == "Completed" && (a.items.any (fun i => i.inReq && !i.allocated) || a.items.any (fun i => i.bound && !i.ph)) then
-      some s!"Completed application with outstanding asks or live allocations {a.id}"
+      some s!"completed-with-work {a.id}"
     else if (a.state == "Completed" || a.state == "Failed" || a.state == "Expired") && a.live &&
             s.queues.any (fun q => q.apps.contains a.id) then
-      some s!"terminated application still in its queue {a.id}"
+      some s!"terminated-still-in-queue {a.id}"
     else none)
 
 def countersOK (s : Core) : Option String :=
   s.queues.findSome? (fun q =>
     let below := s.liveApps.filter (fun a => under a.queue q.path)
     let runningApps := (below.filter (fun a => a.state == "Running")).length
-    if q.running > runningApps then some s!"running>#Running {q.path} {q.running}>{runningApps}"
+    if q.running > runningApps then some s!"running-gt-running-apps {q.path} {q.running}>{runningApps}"
     else match q.allocating.find? (fun id => !(below.any (·.id == id))) with
       | some id => some s!"allocating-not-live {q.path} {id}"
       | none => none)
@@ -303,7 +315,7 @@ def usageOK (s : Core) : Option String :=
   s.users.findSome? (fun u => u.2.findSome? (fun e =>
     let mine := s.liveApps.filter (fun a => a.user == u.1 && under a.queue e.path)
     let sum := sumRes (mine.map (fun a => addX a.allocated a.allocatedPh))
-    if sparseEq e.usage sum then none else some s!"user usage≠Σallocations {u.1}@{e.path}"))
+    if sparseEq e.usage sum then none else some s!"usage-ne-sum {u.1}@{e.path}"))
 
 /-- tracked usage above a configured limit (types the limit defines) -/
 def usageOver (e : UsageEntry) : Bool :=
